@@ -14,7 +14,11 @@ focus = ''
 if rnd:
     k = (ord(rnd[0]) - ord('a')) % len(mechs)
     m = mechs[k]
-    if rnd[0] >= 'j':
+    if rnd[0] >= 'k':
+        k = (ord(rnd[0]) - ord('a') + 8) % len(mechs)
+        m = mechs[k]
+        focus = '\n  Focus: put your change in or around this mechanism of the implementation: %s (%s). Prefer a fault in what happens when the input is INVALID, out of range or refused: the wrong error code for a particular kind of bad input, an error raised for a value that is still legal or not raised for one that is just illegal (a limit moved by one, a check applied to the value after a conversion has rounded, truncated or wrapped it into range, a check on the wrong one of two arguments), an error raised AFTER a side effect that should not have happened or BEFORE one that should (so that the refused statement leaves a trace, or an accepted one loses part of its effect), or a check that only one of two spellings / entry points of the same operation performs. Everything that is valid and well inside the limits must behave exactly as before.' % (m.get('name'), m.get('where'))
+    elif rnd[0] >= 'j':
         k = (ord(rnd[0]) - ord('a') + 7) % len(mechs)
         m = mechs[k]
         focus = '\n  Focus: put your change in or around this mechanism of the implementation: %s (%s). Prefer a fault that depends on the FORM of a perfectly legal input rather than on its meaning, so that the everyday form behaves exactly as before and only an unusual form of the same thing goes wrong: its spelling or layout (lower case, extra or missing blanks, tabs, optional arguments omitted or given explicitly, an alternate separator or keyword order, a type sigil versus a DEFtype default, a number written in hex / octal / exponent form or with many digits), its size or alignment (a length, offset, address, coordinate or count that crosses a multiple of 8, 16, 128, 255 or 256, an odd versus an even length, the last element rather than the first), its order (operands, corners, ranges or list entries given in reverse or repeated, two names of which one is a prefix or a case variant of the other), or its position (the same statement at the end of a line, after THEN / ELSE, in a multi-statement line, as the last line of the program). Avoid faults that any everyday use of the mechanism would show.' % (m.get('name'), m.get('where'))
